@@ -308,8 +308,9 @@ class ModeGen:
         vv, vm = list(vv), list(vm)
         out = []
         for _ in range((1 + r.below(4)) if n is None else n):
-            c = r.below(24)
+            c = r.below(27)
             if c >= 20:
+                c = {24: 20, 25: 21, 26: 21}.get(c, c)
                 # error paths: a statement that fails inside a macro / call block body (often inside an autoescape block),
                 # and the host function `attempt` that swallows the failure of a macro or of caller()
                 if c == 20 and in_macro and d > 0:
@@ -812,17 +813,34 @@ def main():
                 crashes_a.append({"template": epairs[i][0]["templates"], "engine": str(e)[:160]})
             elif e[:1] != m[:1] or (e[0][:1] == [0] and e != m):
                 mode_bad.append((i, rel, e, m))
+    txt = lambda x: "".join(chr(c) for c in x[2:]) if x[:1] == [0] else str(x)
+
+    def find_leak(ee, mm):
+        """(position, print id): a print the model writes HTML-escaped everywhere but the engine writes otherwise"""
+        for j in range(min(len(ee), len(mm))):
+            if ee[j][:1] == [0] and mm[j][:1] == [0] and ee[j] != mm[j]:
+                er, mr = marker_renderings(txt(ee[j])), marker_renderings(txt(mm[j]))
+                for pid, forms in mr.items():
+                    if forms == {"html"} and (er.get(pid, set()) - {"html"}):
+                        return j, pid
+        return None
+
+    mode_bad.sort(key=lambda x: 0 if find_leak(x[2], x[3]) else 1)        # concrete leaks first
     seen_e = 0
     for i, rel, e, m in mode_bad[:20]:
         if seen_e >= 3:
             break
         names, bodies, qs = ecases[i]
+        leaky = find_leak(e, m) is not None
         where = next((j for j in range(min(len(e), len(m))) if e[j] != m[j]), 0)
+
         def bad_now(bs):
             rq, cs = mode_case(names, bs, qs)
             ee = engine_results(run_c02([rq], release=rel)[0]); mm = split_model(run_model("C02", "c02-modes", [cs])[0])
+            if leaky:
+                return find_leak(ee, mm) is not None
             return len(ee) == len(mm) and len(ee) > where and ee[where] != mm[where] and ee[where][:1] == e[where][:1] and mm[where][:1] == m[where][:1] and ee[:where] == mm[:where]
-        cur, progress, budget = list(bodies), True, 200
+        cur, progress, budget = list(bodies), True, 250
         while progress and budget > 0:
             progress = False
             for ti in range(len(cur)):
@@ -841,22 +859,15 @@ def main():
                     break
         rq, cs = mode_case(names, cur, qs)
         ee = engine_results(run_c02([rq], release=rel)[0]); mm = split_model(run_model("C02", "c02-modes", [cs])[0])
-        txt = lambda x: "".join(chr(c) for c in x[2:]) if x[:1] == [0] else str(x)
-        w2 = next((j for j in range(min(len(ee), len(mm))) if ee[j] != mm[j]), 0)
+        lk = find_leak(ee, mm)
+        w2 = lk[0] if lk else next((j for j in range(min(len(ee), len(mm))) if ee[j] != mm[j]), 0)
         et, mt = txt(ee[w2]), txt(mm[w2])
         rp = {"kind": "modes", "templates": rq["templates"], "main": rq["main"], "context": rq["ctx"], "steps": rq["steps"],
               "expected": [txt(x) for x in mm], "engine": [txt(x) for x in ee], "differs_at": "the render" if w2 == 0 else "call %d on the State (%s)" % (w2, rq["steps"][w2 - 1]),
               "profile": "release" if rel else "debug", "case": cs}
         seen_e += 1
-        leak = None
-        if ee[w2][:1] == [0] and mm[w2][:1] == [0]:
-            er, mr = marker_renderings(et), marker_renderings(mt)
-            for pid, forms in mr.items():
-                if forms == {"html"} and (er.get(pid, set()) - {"html"}):
-                    leak = pid
-                    break
-        if leak is not None:
-            rp["what"] = "print [%d:..] stands in an HTML auto-escape context but its data is written %s (%s)" % (leak, "/".join(sorted(marker_renderings(et)[leak] - {"html"})), rp["differs_at"])
+        if lk:
+            rp["what"] = "print [%d:..] stands in an HTML auto-escape context but its data is written %s (%s)" % (lk[1], "/".join(sorted(marker_renderings(et)[lk[1]] - {"html"})), rp["differs_at"])
             viol.append((rp["what"], rp))
         else:
             rp["what"] = "the engine and the mode model (C02/Modes.v) disagree on %s" % rp["differs_at"]
